@@ -33,7 +33,7 @@ def count_points(kind, n):
         W.close()
 
 
-KMAX = {kind: count_points(kind, 3) + 2 for kind in (3, 4, 5)}
+KMAX = {kind: count_points(kind, 4) + 2 for kind in (3, 4, 5)}
 
 
 def run(kind, n, poison, fault, k, pipemode):
